@@ -112,7 +112,10 @@ def fresh_slot_unwraps(F, D):
             if strip_generics(callee_name(t)) == "std::option::Option::unwrap":
                 names = chain_calls(f, t["args"][0])
                 roots = tr.roots_of_operand(t["args"][0])
-                if "std::option::Option::take" in names and any(r.kind == "param" and r.id == 1 for r in roots):
+                from_self = any(r.kind == "param" and r.id == 1 for r in roots) or any(
+                    r.kind == "call" and r.block is not None and strip_generics(r.id) in ("std::cell::RefCell::take", "std::mem::take") and
+                    any(x.kind == "param" and x.id == 1 for x in tr.roots_of_operand(f.term(r.block)["args"][0])) for r in roots)
+                if ("std::option::Option::take" in names or "std::cell::RefCell::take" in names or "std::mem::take" in names) and from_self:
                     out[(f.path, b)] = "value is freshly constructed with Some(..) (%d constructors) and converted once" % n_ctor
     return out
 
@@ -168,7 +171,7 @@ def rule_borrow_scope(ctx, cfg, F, D):
     R.count("borrows[%s]" % cfg, n)
 
 
-TAKERS = ("std::option::Option::take", "std::mem::take", "std::mem::replace", "std::option::Option::replace", "std::vec::Vec::remove", "std::vec::Vec::swap_remove")
+TAKERS = ("std::option::Option::take", "std::cell::RefCell::take", "std::cell::RefCell::replace", "std::cell::Cell::take", "std::mem::take", "std::mem::replace", "std::option::Option::replace", "std::vec::Vec::remove", "std::vec::Vec::swap_remove")
 
 
 def rule_take_once(ctx, cfg, F, D):
